@@ -206,5 +206,59 @@ def serverRx (params : Bytes) : Nat → UInt8 := ctr ((params.drop 32).take 32) 
 def serverReply (params nonce : Bytes) : Bytes :=
   (send H (serverTx ctr params) 0 ⟨nonce, []⟩).1
 
+/-! ### key agreement (`liteclient/keys.go`)
+
+`newKeys` draws an Ed25519 key pair and sends its PUBLIC key; `sharedKey` converts the server's Ed25519 public key to a
+Montgomery u-coordinate (`NewCompressedEdwardsYFromBytes` + `SetCompressedY` + `SetEdwards`, which fail on an invalid
+encoding), converts its own Ed25519 private key to an X25519 scalar (`x25519.EdPrivateKeyToX25519`: the first 32 bytes
+of SHA-512 of the seed, clamped) and multiplies. Only the curve operations are parameters. -/
+
+structure Curve where
+  /-- SHA-512 -/
+  sha512 : Bytes → Bytes
+  /-- Ed25519 public key of a 32-byte seed -/
+  edPub : Bytes → Bytes
+  /-- compressed Edwards point → Montgomery u (`none`: not a valid point encoding) -/
+  toMont : Bytes → Option Bytes
+  /-- X25519 scalar multiplication: scalar, u-coordinate ↦ u-coordinate -/
+  x25519 : Bytes → Bytes → Bytes
+
+/-- RFC 7748 clamping of a 32-byte scalar: clear the three low bits of byte 0, clear bit 7 and set bit 6 of byte 31 -/
+def clamp (b : Bytes) : Bytes :=
+  b.mapIdx fun i x => if i = 0 then x &&& 248 else if i = 31 then (x &&& 127) ||| 64 else x
+
+/-- `x25519.EdPrivateKeyToX25519` -/
+def scalarOf (cv : Curve) (seed : Bytes) : Bytes := clamp ((cv.sha512 seed).take 32)
+
+/-- `sharedKey(ourKey, serverKey)` -/
+def sharedKey (cv : Curve) (ourSeed peerPub : Bytes) : Outcome Bytes :=
+  match cv.toMont peerPub with
+  | none => .err "invalid public key"
+  | some u => .ok (cv.x25519 (scalarOf cv ourSeed) u)
+
+/-- `newKeys(peerPublicKey)` for the seed drawn from `rand.Reader`: (public key that is SENT, shared secret) -/
+def newKeys (cv : Curve) (seed peerPub : Bytes) : Outcome (Bytes × Bytes) :=
+  match sharedKey cv seed peerPub with
+  | .ok sh => .ok (cv.edPub seed, sh)
+  | .err e => .err e
+  | .panic p => .panic p
+
+end
+section
+variable (H : Bytes → Bytes) (ctr : Bytes → Bytes → Nat → UInt8)
+
+/-- `newEncryptedConnection` up to the handshake write: keys from `newKeys`, then `handshake` -/
+def clientHandshake (cv : Curve) (seed serverPub params : Bytes) : Outcome Bytes :=
+  match newKeys cv seed serverPub with
+  | .ok (pub, shared) => handshakePacket H ctr serverPub pub shared params
+  | .err e => .err e
+  | .panic p => .panic p
+
+/-- the specification server's side of the agreement: ITS scalar times the Montgomery form of the key it RECEIVED -/
+def serverShared (cv : Curve) (serverSeed eph : Bytes) : Bytes :=
+  match cv.toMont eph with
+  | some u => cv.x25519 (scalarOf cv serverSeed) u
+  | none => []
+
 end
 end Tongo.Adnl
